@@ -139,7 +139,7 @@ func VerifyFunc(p *Program, key string, fn *ssa.Function, k *Contract) *FuncResu
 			c.Unsupported("%v", err)
 			continue
 		}
-		e.oblige("ensures/"+clauseLabel(cl, k.Ensures), "ensures", cl.Props, oc.NormalCond, post.evalBool(ex), cl.Text, cl.Where)
+		e.oblige("ensures/"+clauseLabel(cl, k.Ensures), "ensures", cl.Props, oc.NormalCond, post.evalGoal(ex), cl.Text, cl.Where)
 	}
 	ppost := e.newEnv(fn.Pkg, oc.PanicSt, e.entry)
 	e.bindParams(ppost, fr)
@@ -149,7 +149,7 @@ func VerifyFunc(p *Program, key string, fn *ssa.Function, k *Contract) *FuncResu
 			c.Unsupported("%v", err)
 			continue
 		}
-		e.oblige("panic-ensures/"+clauseLabel(cl, k.PanicEnsures), "panic-ensures", cl.Props, oc.PanicCond, ppost.evalBool(ex), cl.Text, cl.Where)
+		e.oblige("panic-ensures/"+clauseLabel(cl, k.PanicEnsures), "panic-ensures", cl.Props, oc.PanicCond, ppost.evalGoal(ex), cl.Text, cl.Where)
 	}
 	if k.NoPanic && !k.MayPanic {
 		e.oblige("nopanic", "nopanic", props, oc.PanicCond, "false", "the function does not panic under its precondition", k.Where)
@@ -194,6 +194,12 @@ func (e *Eval) frameObligations(k *Contract, fn *ssa.Function, env *Env, oc Outc
 		switch {
 		case m == "*":
 			return
+		case strings.HasPrefix(m, "$") && strings.HasSuffix(m, "*"):
+			for comp := range c.compSort {
+				if strings.HasPrefix(comp, m[:len(m)-1]) {
+					allowedAll[comp] = true
+				}
+			}
 		case strings.HasPrefix(m, "$"):
 			allowedAll[m] = true
 		case strings.HasPrefix(m, "elems(") && strings.HasSuffix(m, ")"):
@@ -256,7 +262,7 @@ func (e *Eval) frameObligations(k *Contract, fn *ssa.Function, env *Env, oc Outc
 	}
 	sort.Strings(comps)
 	for _, comp := range comps {
-		if strings.HasPrefix(comp, "L.") || allowedAll[comp] {
+		if strings.HasPrefix(comp, "L.") || strings.HasPrefix(comp, "$c.") || allowedAll[comp] {
 			continue
 		}
 		switch comp {
@@ -306,6 +312,76 @@ func (c *Ctx) implAxioms() []string {
 	return out
 }
 
+// splitAnd returns the top-level conjuncts of a term.
+func splitAnd(t string) []string {
+	if !strings.HasPrefix(t, "(and ") {
+		return []string{t}
+	}
+	inner := t[5 : len(t)-1]
+	var out []string
+	d, start := 0, 0
+	inq := false
+	for i := 0; i < len(inner); i++ {
+		ch := inner[i]
+		if ch == '|' {
+			inq = !inq
+		}
+		if inq {
+			continue
+		}
+		switch ch {
+		case '(':
+			d++
+		case ')':
+			d--
+		case ' ':
+			if d == 0 {
+				if i > start {
+					out = append(out, inner[start:i])
+				}
+				start = i + 1
+			}
+		}
+	}
+	if start < len(inner) {
+		out = append(out, inner[start:])
+	}
+	return out
+}
+
+// RelaxedQuery drops every quantified assertion of the context: a model of it
+// is only a candidate counterexample (to be confirmed by replay).
+func (c *Ctx) RelaxedQuery(o *Obligation) string {
+	q := c.Query(o, false)
+	var b strings.Builder
+	b.WriteString("(set-option :produce-models true)\n")
+	for _, ln := range strings.Split(q, "\n") {
+		if strings.HasPrefix(ln, "(assert ") && (strings.Contains(ln, "(forall ") || strings.Contains(ln, "(exists ")) && !strings.HasPrefix(ln, "(assert (not ") {
+			continue
+		}
+		if ln == "(check-sat)" {
+			continue
+		}
+		b.WriteString(ln)
+		b.WriteByte('\n')
+	}
+	b.WriteString("(check-sat)\n")
+	var vals []string
+	if !o.Cover {
+		vals = append(vals, o.Reach)
+		for _, cj := range splitAnd(o.Goal) {
+			if !strings.Contains(cj, "(forall ") && !strings.Contains(cj, "(exists ") {
+				vals = append(vals, cj)
+			}
+		}
+	}
+	if len(vals) > 0 {
+		b.WriteString("(get-value (" + strings.Join(vals, " ") + "))\n")
+	}
+	b.WriteString("(get-model)\n")
+	return b.String()
+}
+
 // Query renders the SMT-LIB text of an obligation.
 func (c *Ctx) Query(o *Obligation, wantModel bool) string {
 	var body strings.Builder
@@ -313,11 +389,15 @@ func (c *Ctx) Query(o *Obligation, wantModel bool) string {
 		body.WriteString(s)
 		body.WriteByte('\n')
 	}
-	if o.Cover {
-		body.WriteString("(assert " + o.Goal + ")\n")
-	} else {
-		body.WriteString("(assert (not " + implies(o.Reach, o.Goal) + "))\n")
+	goalText := "(assert " + o.Goal + ")\n"
+	if !o.Cover {
+		goalText = "(assert (not " + implies(o.Reach, o.Goal) + "))\n"
 	}
+	for _, d := range c.freshnessAxioms(o.Mark, body.String()+goalText) {
+		body.WriteString(d)
+		body.WriteByte('\n')
+	}
+	body.WriteString(goalText)
 	bt := body.String()
 	var b strings.Builder
 	if wantModel {
@@ -377,8 +457,7 @@ func VerifyLemma(p *Program, key string, k *Contract) *FuncResult {
 			continue
 		}
 		env := e.newEnv(pkg, e.entry, e.entry)
-		env.skolem = true
-		g := env.evalBool(ex)
+		g := env.evalGoal(ex)
 		e.oblige("lemma/"+clauseLabel(cl, k.Lemmas), "lemma", cl.Props, "true", g, cl.Text, cl.Where)
 	}
 	return &FuncResult{Key: key, Contract: k, Obls: e.obls, Ctx: c, Unsupported: c.unsupported}
